@@ -44,6 +44,8 @@ type Ind struct {
 	ScaleKnown func(cfg []float64, volume bool) string
 	// Note documents reading choices (where the doc comment is shorthand).
 	Note string
+	// Periods lists the configuration components that are periods (nil = all of them).
+	Periods []int
 }
 
 // Inds is the indicator catalogue.
